@@ -740,19 +740,19 @@ def _basic_leaf(nt):
 
 def _inner():
     leaf = _basic_leaf(0)
-    return st.one_of(st.none(), leaf, leaf, leaf, st.tuples(st.sampled_from(["and", "or"]), leaf, leaf).map(list), leaf.map(lambda e: ["not", e]),
-                     leaf.map(lambda e: ["case", e]))
+    # criterion handed to any()/has()/exists()/IN-subquery; CASE first: it is re-targeted by ClauseAdapter for self-referential any()
+    return st.one_of(leaf.map(lambda e: ["case", e]), leaf, st.none(), leaf, st.tuples(st.sampled_from(["and", "or"]), leaf, leaf).map(list),
+                     leaf.map(lambda e: ["not", e]))
 
 
 def _rel_leaf(nt):
     t = st.integers(0, nt)
     ri = st.integers(0, 1)
     return st.one_of(
+        st.tuples(st.just("releq"), t, ri, st.integers(0, 30), st.booleans()).map(list),
         st.tuples(st.just("any"), t, ri, _inner(), st.integers(0, 2)).map(list),
-        st.tuples(st.just("any"), t, ri, _inner(), st.integers(0, 1)).map(list),
         st.tuples(st.just("relnull"), t, ri, st.booleans()).map(list),
-        st.tuples(st.just("releq"), t, ri, st.integers(0, 30), st.booleans()).map(list),
-        st.tuples(st.just("releq"), t, ri, st.integers(0, 30), st.booleans()).map(list),
+        st.tuples(st.just("any"), t, ri, _inner(), st.integers(0, 1)).map(list),
         st.tuples(st.just("subcount"), t, ri, st.sampled_from(OPS), st.integers(0, 3)).map(list),
         st.tuples(st.just("exists"), t, ri, _inner()).map(list),
         st.tuples(st.just("insub"), t, ri, _inner()).map(list),
@@ -765,30 +765,39 @@ def _case_leaf(nt):
 
 
 def where_trees(nt, max_leaves=4):
-    leaf = st.one_of(_basic_leaf(nt), _rel_leaf(nt), _rel_leaf(nt), _rel_leaf(nt), _case_leaf(nt))
+    # Hypothesis favours the first alternatives: relationship leaves first, plain column predicates last
+    leaf = st.one_of(_rel_leaf(nt), _case_leaf(nt), _basic_leaf(nt))
     return st.recursive(
         leaf,
-        lambda ch: st.one_of(st.tuples(st.sampled_from(["and", "and", "or"]), ch, ch).map(list), ch.map(lambda e: ["not", e])),
+        lambda ch: st.one_of(st.tuples(st.sampled_from(["or", "and"]), ch, ch).map(list), ch.map(lambda e: ["not", e])),
         max_leaves=max_leaves,
     )
 
 
+# strategies are built once (constructing st.recursive inside a composite on every draw is very slow)
+_DATA = oq.datasets(max_parents=5, max_children=3, max_grand=2)
+_WHERE = {nt: st.one_of(where_trees(nt), st.none()) for nt in (0, 1, 2)}
+_WHERE3 = {nt: st.one_of(where_trees(nt, max_leaves=3), st.none()) for nt in (0, 1)}
+_SEL = st.lists(st.one_of(st.tuples(st.just("e"), st.integers(0, 2)).map(list), st.tuples(st.just("c"), st.integers(0, 2), st.integers(0, 4)).map(list)),
+                min_size=0, max_size=3)
+_ORDER = st.lists(st.tuples(st.integers(0, 2), st.integers(0, 4), st.booleans()).map(list), max_size=2)
+
+
 @st.composite
 def _rows_cases(draw):
-    data = draw(oq.datasets(max_parents=5, max_children=3, max_grand=2))
-    root = draw(st.sampled_from(["Parent", "Parent", "Child", "Child", "Grandchild", "Tag", "Node", "Node"]))
-    nj = draw(st.sampled_from([0, 1, 1, 2]))
+    data = draw(_DATA)
+    root = draw(st.sampled_from(["Node", "Child", "Parent", "Node", "Child", "Parent", "Grandchild", "Tag"]))
+    nj = draw(st.sampled_from([1, 0, 2, 1]))
     joins = [{"src": draw(st.integers(0, 1)), "rel": draw(st.integers(0, 1)), "outer": draw(st.booleans()), "style": draw(st.integers(0, 3))} for _ in range(nj)]
-    sel = draw(st.lists(st.one_of(st.tuples(st.just("e"), st.integers(0, 2)).map(list), st.tuples(st.just("c"), st.integers(0, 2), st.integers(0, 4)).map(list)),
-                        min_size=0, max_size=3))
-    window = draw(st.sampled_from(["none", "none", "limit", "limit+offset", "offset"]))
+    sel = draw(_SEL)
+    window = draw(st.sampled_from(["none", "limit", "none", "limit+offset", "none", "offset"]))
     q = {
         "root": root, "ralias": draw(st.booleans()), "joins": joins, "sel": sel,
-        "where": draw(st.one_of(st.none(), where_trees(nj), where_trees(nj), where_trees(nj))),
+        "where": draw(_WHERE[nj]),
         "distinct": draw(st.sampled_from([False, False, True])),
-        "order": draw(st.lists(st.tuples(st.integers(0, 2), st.integers(0, 4), st.booleans()).map(list), max_size=2)),
-        "limit": draw(st.integers(0, 6)) if "limit" in window else None,
-        "offset": draw(st.integers(0, 3)) if "offset" in window else None,
+        "order": draw(_ORDER),
+        "limit": draw(st.sampled_from([3, 1, 2, 5, 8, 0])) if "limit" in window else None,
+        "offset": draw(st.sampled_from([1, 0, 2])) if "offset" in window else None,
     }
     return {"data": data, "q": q}
 
@@ -797,6 +806,6 @@ def subs(tier):
     from checks import _c41_compound as cc
 
     return [
-        Generated("rows", check_rows, strategy=_rows_cases(), quick=1600, thorough=40000),
-        Generated("compound", cc.check_compound, strategy=cc.cases(), quick=800, thorough=20000),
+        Generated("rows", check_rows, strategy=_rows_cases(), quick=1600, thorough=40000, budget_s_quick=22.0),
+        Generated("compound", cc.check_compound, strategy=cc.cases(), quick=800, thorough=20000, budget_s_quick=15.0),
     ]
